@@ -108,8 +108,13 @@ func init() {
 			}
 		}
 		var items []*corp.Item
-		for _, rec := range sel {
-			for _, mode := range []string{"explicit", "token", "none", "mixed"} {
+		for ri, rec := range sel {
+			modes := []string{"explicit", "token", "none", "mixed"}
+			if ri%4 == 0 || len(rec.G.Alts) >= 10 {
+				// action text fidelity: literals with blanks, tabs, verbs, template syntax inside the action
+				modes = append(modes, "literal")
+			}
+			for _, mode := range modes {
 				g, tokImp := gram.WithActions(rec.G, mode)
 				it := corp.NewItem("Act-"+mode, g)
 				it.TokImp = tokImp
